@@ -421,6 +421,10 @@ class FuncFacts:
                 ps = self._paths(it, it_at, stack, {k: v for k, v in env.items() if k != e.id}, spine)
                 return self._ext(ps, Op("iter", "", e))
             defs = self.rd.reaching(e.id, at)
+            if not defs and at == self.cfg.entry:
+                # an expression that is not part of the function's tree (a normalised copy) is evaluated at the entry:
+                # the parameters are defined there
+                defs = self.rd.reaching_after(e.id, at)
             if not defs:
                 return [Path(Atom("name", e.id, e), (), at)]
             return self._from_defs(e.id, defs, at, stack, env, spine, e)
